@@ -48,6 +48,9 @@ type forExpander struct {
 	// what is in the way of resolving a symbol, as far as it has been looked
 	// at: "" nothing, "!" a cycle, else an undefined name its value leads to
 	symbolBlocker map[string]string
+	// the index, in the value of a symbol, of the token that led to what
+	// is in its way
+	symbolBlockerAt map[string]int
 
 	// output fields
 	tokens chan token
@@ -60,7 +63,7 @@ func newForExpander(lex tokenReader, symbols map[string][]token) *forExpander {
 		symbols = make(map[string][]token)
 	}
 	f := &forExpander{lex: lex, symbols: symbols, resolved: make(map[string][]token),
-		failedSymbols: make(map[string]error), symbolBlocker: make(map[string]string), resolvedBudget: maxSymbolTableTokens}
+		failedSymbols: make(map[string]error), symbolBlocker: make(map[string]string), symbolBlockerAt: make(map[string]int), resolvedBudget: maxSymbolTableTokens}
 	f.next()
 	f.tokens = make(chan token)
 	go f.run()
@@ -733,7 +736,9 @@ func (f *forExpander) blockerOf(name string, onPath map[string]bool) string {
 			f.symbolBlocker[name] = next
 			return next
 		}
-		// nothing: look at the whole value again, another name may be missing
+		// nothing: go on through the value from the token that led there
+		// (the tokens before it had nothing in their way, for good);
+		// another name may be missing
 		delete(f.symbolBlocker, name)
 	}
 	if onPath[name] {
@@ -741,7 +746,10 @@ func (f *forExpander) blockerOf(name string, onPath map[string]bool) string {
 	}
 	onPath[name] = true
 	blocker := ""
-	for _, tok := range f.symbols[name] {
+	value := f.symbols[name]
+	at := f.symbolBlockerAt[name]
+	for ; at < len(value); at++ {
+		tok := value[at]
 		if tok.typ != tokText {
 			continue
 		}
@@ -756,6 +764,7 @@ func (f *forExpander) blockerOf(name string, onPath map[string]bool) string {
 	}
 	delete(onPath, name)
 	f.symbolBlocker[name] = blocker
+	f.symbolBlockerAt[name] = at
 	return blocker
 }
 
